@@ -855,6 +855,15 @@ fn seeds(rng: &mut Rng, n: usize, nbig: usize) -> Vec<(Vec<Seg>, usize)> {
     out.push((segs, 2001));
     out.push((vec![Seg::new("status", "", 200), Seg::new("te", "Chunked", 0), Seg::new("hdr", "x-after: 1", 0), Seg::new("blank", "", 0),
                    Seg::new("chunk", &hex(&[b'q'; 17]), 0), Seg::new("chunk", "7a", 0), Seg::new("last", "", 0)], 2002));
+    // interim responses in front of the final one (100 Continue; one or two of them), cut at every byte and delivered in one
+    // write: the head of the final response arrives in the same read as the interim one.  Relaying the interim response or
+    // the final one are both accepted (ProxyMsg!Interim); losing the final response is not.
+    out.push((vec![Seg::new("status", "", 100), Seg::new("blank", "", 0), Seg::new("status", "", 201), Seg::new("cl", "", 2), Seg::new("blank", "", 0),
+                   Seg::new("data", "6f6b", 0)], 2100));
+    out.push((vec![Seg::new("status", "", 100), Seg::new("hdr", "x-interim: 1", 0), Seg::new("blank", "", 0), Seg::new("status", "", 200), Seg::new("te", "", 0),
+                   Seg::new("hdr", "x-final: 1", 0), Seg::new("blank", "", 0), Seg::new("chunk", "616263", 0), Seg::new("last", "", 0)], 2101));
+    out.push((vec![Seg::new("status", "", 100), Seg::new("blank", "", 0), Seg::new("status", "", 100), Seg::new("blank", "", 0), Seg::new("status", "", 404),
+                   Seg::new("cl", "", 0), Seg::new("blank", "", 0)], 2102));
     // two fixed non-HTTP seeds: every prefix of them must give 502 as well
     out.push((vec![Seg::new("garbage", "ssh", 0)], n));
     out.push((vec![Seg::new("status", "", 200), Seg::new("badhdr", "", 0), Seg::new("blank", "", 0)], n + 1));
